@@ -22,7 +22,11 @@ KIDS = {
     'eld': '<div v-show={{v1}}>hi</div>', 'elf': '<input v-foo={{v2}}/>', 'spcall': '{{...f1(v2)}}', 'spobj': '{{...[v1, v2]}}', 'spfn': '{{...(() => [v1])()}}', 'empty': '{{}}', 'cmt': '{{/* c */}}', 'spread': '{{...v3}}', 'el': '<b/>', 'elt': '<i>x</i>', 'frag': '<>y</>', 'comp': '<C1/>',
 }
 HOSTS = {'div': ('div', 'div'), 'Foo': ('Foo', 'Foo'), 'C1': ('C1', 'C1'), 'mem': ('v1.Foo', 'v1.Foo'), 'memtag': ('v1.button', 'v1.button'), 'memsvg': ('v2.svg', 'v2.svg'), 'memdeep': ('v1.ui.table', 'v1.ui.table'), 'KeepAlive': ('KeepAlive', 'KeepAlive'),
-         'frag': ('', ''), 'cust': ('x-y', 'x-y'), 'Fragment': ('Fragment', 'Fragment')}
+         'frag': ('', ''), 'cust': ('x-y', 'x-y'), 'Fragment': ('Fragment', 'Fragment'),
+         # native tags whose content is whitespace-sensitive or raw text in HTML: JSX treats them like any other element
+         'pre': ('pre', 'pre'), 'textarea': ('textarea', 'textarea'), 'code': ('code', 'code'), 'style': ('style', 'style'), 'script': ('script', 'script'), 'svgtext': ('text', 'text'), 'title': ('title', 'title'),
+         'option': ('option', 'option'), 'template': ('template', 'template'), 'slot': ('slot', 'slot')}
+TEXT_HOSTS = ['pre', 'textarea', 'code', 'style', 'script', 'svgtext', 'title', 'option', 'template', 'slot']
 VSLOTS = {'': '', 'id': ' v-slots={{s1}}', 'obj': ' v-slots={{{{foo: f1}}}}', 'call': ' v-slots={{f1()}}'}
 
 
@@ -297,6 +301,17 @@ def kid_jobs(tier, hosts, vslots_for):
             out.append({'host': h, 'kids': ['el', t, 'el']})
             out.append({'host': h, 'kids': ['id', t, 'call']})
             out.append({'host': h, 'kids': [t, 'el']})
+    return out
+
+
+def text_host_jobs(tier):
+    """text-bearing child lists on the native tags of TEXT_HOSTS"""
+    out = []
+    for h in TEXT_HOSTS:
+        for kids in (['T2'], ['nl'], ['sp'], ['blank'], ['E2'], ['nl', 'el'], ['el', 'T2', 'el'], ['nl', 'id', 'nl'], ['T2', 'empty', 'T2'], ['hi', 'call']):
+            if tier == 'quick' and h not in ('pre', 'textarea', 'svgtext', 'template') and kids not in (['nl'], ['nl', 'el'], ['T2']):
+                continue
+            out.append({'host': h, 'kids': kids})
     return out
 
 
